@@ -164,7 +164,8 @@ def generate(rng, seed, part):
                         "far": rng.choice([-9.5, 11.25, 40.0])})
         if rng.random() < 0.05:
             # ... or an empty clone / a full copy of it (a second accumulator over "the same bins")
-            ops.append({"op": "side", "how": rng.choice(["copy_empty", "copy_empty", "copy", "edit_edges", "edit_edges"]),
+            ops.append({"op": "side", "how": rng.choice(["copy_empty", "copy_empty", "copy", "edit_edges", "edit_edges",
+                                                         "added_to_another", "added_to_another"]),
                         "axis": rng.randrange(ndim), "far": rng.choice([-9.5, 11.25, 40.0])})
     return {"property": PROPERTY, "scenario": "adaptive_stream", "config": cfg, "entries": entries, "ops": ops}
 
@@ -433,6 +434,33 @@ def execute(plan, ctx):
         first_before = [float(b.bins[0, 0]) if b.bin_count else None for b in h.binnings]
         if op["op"] == "side":
             if any(b.bin_count == 0 for b in h.binnings):
+                continue
+            if op["how"] == "added_to_another":
+                # the accumulator is the right operand of an addition with another adaptive histogram (other range);
+                # the SUM then grows further - the accumulator is nobody's business in all of this
+                from physt.binnings import FixedWidthBinning
+                from physt.histogram1d import Histogram1D as _H1
+                from physt.histogram_nd import HistogramND as _HN
+
+                def build_and_add():
+                    bs = []
+                    for b in h.binnings:
+                        k0 = int(round((b.first_edge - b._shift) / b.bin_width))
+                        bs.append(FixedWidthBinning(bin_width=b.bin_width, bin_count=1, bin_times_min=k0 - 3,
+                                                    bin_shift=b._shift, adaptive=True))
+                    other = _H1(bs[0]) if ndim == 1 else _HN(bs)
+                    centre = [float(np.asarray(b.bins)[0].mean()) for b in bs]
+                    other.fill(centre[0] if ndim == 1 else centre)
+                    total = other + h
+                    far = [float(np.asarray(b.bins)[0, 0]) + op["far"] * widths[k] for k, b in enumerate(total.binnings)]
+                    total.fill(far[0] if ndim == 1 else far)
+                    far2 = [float(np.asarray(b.bins)[-1, 1]) + 2.5 * widths[k] for k, b in enumerate(total.binnings)]
+                    total.fill_n([far2[0]] if ndim == 1 else [far2])
+                ok, res = attempt(build_and_add)
+                ctx.ev("other", "side:added_to_another", None, "ok" if ok else exc_tag(res))
+                ctx.abstract("side", "added_to_another", ok)
+                ctx.fault("derived_object_filled")
+                prev = check_all([], prev, "growth-of-a-sum-the-accumulator-was-added-to")
                 continue
             if op["how"] == "edit_edges":
                 # a copy hands out its edges and the caller turns them into bin centres in place - the copy's own
